@@ -31,7 +31,11 @@ type SyncReceiver struct {
 	lastSeq    map[string]uint64
 	lastRecvNs map[string]int64
 	appliers   map[string]SyncApplier
-	mu         sync.Mutex
+	// reserved remembers, per synced namespace and session id, the checkpoint
+	// whose addresses are currently reserved in the registry, so that an update
+	// which changes or drops an address releases the one it replaces.
+	reserved map[string]*hapb.SessionCheckpoint
+	mu       sync.Mutex
 }
 
 func NewSyncReceiver(store opdb.Store, registry *allocator.Registry, logger *logger.Logger) *SyncReceiver {
@@ -42,6 +46,7 @@ func NewSyncReceiver(store opdb.Store, registry *allocator.Registry, logger *log
 		lastSeq:    make(map[string]uint64),
 		lastRecvNs: make(map[string]int64),
 		appliers:   make(map[string]SyncApplier),
+		reserved:   make(map[string]*hapb.SessionCheckpoint),
 	}
 }
 
@@ -83,12 +88,12 @@ func (r *SyncReceiver) HandleSyncSession(ctx context.Context, req *hapb.SyncSess
 		if err := r.storeCheckpoint(ctx, req.Session); err != nil {
 			return &hapb.SyncSessionResponse{Success: false, LastSyncSeq: lastSeq}, err
 		}
-		r.reserveAddresses(req.Session)
+		r.replaceReservation(req.Session)
 	case hapb.SyncAction_SYNC_ACTION_DELETE:
 		if err := r.deleteCheckpoint(ctx, req.Session); err != nil {
 			return &hapb.SyncSessionResponse{Success: false, LastSyncSeq: lastSeq}, err
 		}
-		r.releaseAddresses(req.Session)
+		r.dropReservation(req.Session)
 	}
 
 	if fn := r.applierFor(req.Session.AccessType); fn != nil {
@@ -109,7 +114,7 @@ func (r *SyncReceiver) HandleBulkSyncPage(ctx context.Context, resp *hapb.BulkSy
 		if err := r.storeCheckpoint(ctx, cp); err != nil {
 			return err
 		}
-		r.reserveAddresses(cp)
+		r.replaceReservation(cp)
 		if fn := r.applierFor(cp.AccessType); fn != nil {
 			fn(hapb.SyncAction_SYNC_ACTION_UPDATE, cp)
 		}
@@ -175,6 +180,42 @@ func (r *SyncReceiver) storeCheckpoint(ctx context.Context, cp *hapb.SessionChec
 
 func (r *SyncReceiver) deleteCheckpoint(ctx context.Context, cp *hapb.SessionCheckpoint) error {
 	return r.opdb.Delete(ctx, syncedNamespace(cp.AccessType), cp.SessionId)
+}
+
+func reservationKey(cp *hapb.SessionCheckpoint) string {
+	return syncedNamespace(cp.AccessType) + "/" + cp.SessionId
+}
+
+// replaceReservation releases what the previous checkpoint of the same session
+// reserved and reserves the addresses of cp.
+func (r *SyncReceiver) replaceReservation(cp *hapb.SessionCheckpoint) {
+	if r.registry == nil {
+		return
+	}
+	key := reservationKey(cp)
+	r.mu.Lock()
+	prev := r.reserved[key]
+	r.reserved[key] = cp
+	r.mu.Unlock()
+	if prev != nil {
+		r.releaseAddresses(prev)
+	}
+	r.reserveAddresses(cp)
+}
+
+// dropReservation releases what the last checkpoint of the session reserved.
+func (r *SyncReceiver) dropReservation(cp *hapb.SessionCheckpoint) {
+	if r.registry == nil {
+		return
+	}
+	key := reservationKey(cp)
+	r.mu.Lock()
+	prev := r.reserved[key]
+	delete(r.reserved, key)
+	r.mu.Unlock()
+	if prev != nil {
+		r.releaseAddresses(prev)
+	}
 }
 
 func (r *SyncReceiver) reserveAddresses(cp *hapb.SessionCheckpoint) {
@@ -280,16 +321,16 @@ func (r *SyncReceiver) releaseAddresses(cp *hapb.SessionCheckpoint) {
 		return
 	}
 	if len(cp.Ipv4Address) > 0 {
-		r.registry.ReleaseIP(net.IP(cp.Ipv4Address))
+		r.registry.ReleaseIPInPool(cp.Ipv4Pool, net.IP(cp.Ipv4Address))
 	}
 	if len(cp.Ipv6Address) > 0 {
-		r.registry.ReleaseIANAByIP(net.IP(cp.Ipv6Address))
+		r.registry.ReleaseIANAInPool(cp.IanaPool, net.IP(cp.Ipv6Address))
 	}
 	if len(cp.Ipv6Prefix) > 0 && cp.Ipv6PrefixLen > 0 {
 		ipNet := &net.IPNet{
 			IP:   net.IP(cp.Ipv6Prefix),
 			Mask: net.CIDRMask(int(cp.Ipv6PrefixLen), 128),
 		}
-		r.registry.ReleasePDByPrefix(ipNet)
+		r.registry.ReleasePDInPool(cp.PdPool, ipNet)
 	}
 }
